@@ -153,6 +153,21 @@ def run(ctx):
             ctx.add_result(r)
         ctx.functions.update(funcs)
     ctx.replayers['C11.extension-saturates.'] = replay_extension_saturates
+    # premise of L-EXT restated per extension: rule sets are built by inheritance between logic modules -- a rule class a logic takes
+    # over from another logic's module must still fit THE INHERITING LOGIC: a modal extension hands it a world, which every node it adds has to carry (C04's world /
+    # attribute / branching obligations of the inherited rules, per logic; a world-less node never meets its complement at a world)
+    from checks import c04
+    from pyvc.par import pmap
+    names = sorted({x for a in ext for x in [a, *ext[a]]})
+    for results, funcs in pmap(c04.work_inherited, names):
+        for r in results:
+            # what inheriting adds to a rule: the world it is handed and the attributes its filter is built from; the exactness of the
+            # rule against the inheriting logic's tables stays C04's own claim (and its known findings)
+            if not r.name.endswith(('.world', '.attrs', '.branching')): continue
+            r.name = r.name.replace('C04.', 'C11.inherited.', 1)
+            ctx.add_result(r)
+        ctx.functions.update(funcs)
+    ctx.replayers['C11.inherited.'] = lambda r: c04.replay(dict(obligation=r.name.replace('C11.inherited.', 'C04.', 1), counterexample=r.cex, meta=r.meta))
     bounded_monotone(ctx)
     ctx.replayers['C11.pair.'] = replay_pair
     ctx.replayers['C11.'] = lambda r: dict(reproduced=None, detail='see counterexample / meta')
